@@ -414,6 +414,10 @@ func (m *c03Mon) getterCall(hdr *header.ExtendedHeader, idxs []c03Coord, call *c
 				known = true
 			}
 		}
+		if !known && rt.drawn && rt.inflight > 1 && transition != "crash-restart" {
+			m.violate("C03 a call for a block whose check is still in flight requests a coordinate set of its own (pending coordinates are not re-requested as the same coordinates)", rt,
+				map[string]any{"requested_now": req.str(), "owed": rt.pending.str(), "getter_calls_in_flight_for_the_block": rt.inflight})
+		}
 		if !known {
 			rt.draws = append(rt.draws, req.clone())
 			rt.drawn = true
@@ -671,6 +675,7 @@ func TestC03(t *testing.T) {
 	part("hist", func() { c.histories(rng.Split("hist"), pool) })
 	part("draw", func() { c.drawStats(rng.Split("draw")) })
 	part("draw-wide", func() { c.drawWide(rng.Split("draw-wide")) })
+	part("waiter", func() { c.waiterGivesUp(rng.Split("waiter"), pool) })
 	wg.Wait()
 	// the end-to-end variant runs real (mock-)network round trips under real context deadlines: it
 	// runs after the CPU-heavy parts so that a starved attempt does not pass for a refused one
